@@ -54,7 +54,9 @@ Definition new_from_pos (s : str) (pos : nat) (msg : str) : res error :=
   Ok {| e_location := IPos pos; e_line_col := LPos lc; e_path := None; e_line := line;
         e_continued := None; e_message := msg |}.
 
-Definition new_from_span (s : str) (sp : nat * nat) (msg : str) : res error :=
+(* `fix_continued` = false: the code as shipped; true: with fixes/C10-1-continued-line-visualize.patch
+   (the continued line is always passed through visualize_whitespace) *)
+Definition new_from_span (fix_continued : bool) (s : str) (sp : nat * nat) (msg : str) : res error :=
   let e := snd sp in
   elc <- line_col s e ;;
   elc' <- (if Nat.eqb (snd elc) 1 then
@@ -72,7 +74,8 @@ Definition new_from_span (s : str) (sp : nat * nat) (msg : str) : res error :=
       end in
   let start_line := if visualize_ws then visualize_whitespace sl else strip_crlf sl in
   let ll := match tl ls with [] => None | x :: r => Some (last r x) end in   (* line_iter.last() *)
-  let continued := if visualize_ws then ll else option_map visualize_whitespace ll in
+  let continued := if fix_continued then option_map visualize_whitespace ll
+                   else if visualize_ws then ll else option_map visualize_whitespace ll in
   slc <- line_col s (fst sp) ;;
   Ok {| e_location := ISpan (fst sp, e); e_line_col := LSpan slc elc'; e_path := None;
         e_line := start_line; e_continued := continued; e_message := msg |}.
@@ -155,5 +158,5 @@ Definition format (e : error) : res str :=
 (* format!("{}", Error::new_from_pos(CustomError{msg}, Position::new(s, pos).unwrap())) *)
 Definition render_pos (s : str) (pos : nat) (msg : str) : res str :=
   e <- new_from_pos s pos msg ;; format e.
-Definition render_span (s : str) (sp : nat * nat) (msg : str) : res str :=
-  e <- new_from_span s sp msg ;; format e.
+Definition render_span (fix_continued : bool) (s : str) (sp : nat * nat) (msg : str) : res str :=
+  e <- new_from_span fix_continued s sp msg ;; format e.
